@@ -401,6 +401,7 @@ struct WorldEngine : run::Engine {
 	std::map<std::string, int64_t> neutral_cfg() const override {
 		return {{"aggr_http", 0}, {"ext_http", 0}, {"pdu_ver", 2}, {"mac_alg", 1}, {"keylen", 8}, {"loginlen", 6}, {"transfer_to", 10}, {"connect_to", 10}, {"epoch", 0}, {"epoch_ms", 0}, {"loglevel", 0}};
 	}
+	std::string state_measure() const override { return "(signatures held, requests served by the reference servers so far) after every call"; }
 	std::string nontrivial_rule() const override { return "a run is non-trivial when at least one call met an adversarial server behaviour, a transport fault, segmentation, delay or an in-flight bit flip; distinct = distinct event-log hash"; }
 };
 
